@@ -196,7 +196,7 @@ pub fn compare(input: &syn::ItemTrait, output: &syn::ItemTrait, tol: Tol, maybe_
                     (Some(a), Some(b)) => {
                         // an async default body may legitimately be wrapped; require the user's block tokens to survive inside
                         let (ta, tb) = (t_of(a), t_of(b));
-                        if ta != tb && !contains_group(&tb, &ta) {
+                        if ta != tb && !contains_group(&tb, &ta) && !contains_spliced(&tb, &ta) {
                             return Err(format!("default body of `{name}` changed"));
                         }
                     }
@@ -230,6 +230,29 @@ fn contains_group(hay: &[Tok], needle_block: &[Tok]) -> bool {
     for t in hay {
         if let Tok::Group(_, inner) = t {
             if std::slice::from_ref(t) == needle_block || contains_group(inner, needle_block) {
+                return true;
+            }
+        }
+    }
+    false
+}
+
+/// The statements of the user's block spliced into the wrapper's own block (no braces of their own): some brace group
+/// of `hay` is `let _ = &param;`* followed by exactly the tokens inside `needle_block`.
+fn contains_spliced(hay: &[Tok], needle_block: &[Tok]) -> bool {
+    let [Tok::Group('{', needle)] = needle_block else { return false };
+    fn is_binding(chunk: &[Tok]) -> bool {
+        matches!(chunk, [Tok::Ident(l), Tok::Ident(u), Tok::Punct('='), Tok::Punct('&'), Tok::Ident(_), Tok::Punct(';')] if l == "let" && u == "_")
+    }
+    for t in hay {
+        if let Tok::Group(d, inner) = t {
+            if *d == '{' && inner.ends_with(needle) {
+                let prefix = &inner[..inner.len() - needle.len()];
+                if prefix.len() % 6 == 0 && prefix.chunks(6).all(is_binding) {
+                    return true;
+                }
+            }
+            if contains_spliced(inner, needle_block) {
                 return true;
             }
         }
